@@ -12,9 +12,26 @@ import gen
 from common import run_harness, run_model, child_env, BUILD
 
 
+def split_files(rows):
+    """the CSV text of a case, as one file or - for about half of the cases, decided by the
+    rows themselves - cut into two or three files in the same order (what the tool reads is
+    the concatenation; a third file is where a per-file bookkeeping slip first shows)"""
+    if len(rows) < 3:
+        return [core.to_csv(rows)]
+    h = int(hashlib.sha1(repr([(r["sec"], r["sd"], r["act"]) for r in rows]).encode()).hexdigest()[:8], 16)
+    k = h % 4
+    if k < 2:
+        return [core.to_csv(rows)]
+    a = 1 + (h >> 4) % (len(rows) - 1)
+    if k == 2:
+        return [core.to_csv(rows[:a]), core.to_csv(rows[a:])]
+    b = a + (h >> 12) % (len(rows) - a)
+    return [core.to_csv(rows[:a]), core.to_csv(rows[a:b]), core.to_csv(rows[b:])]
+
+
 def run_cases(ctx, cases, want_exact=False, render=False, costs=False):
     exe = ctx["exe"]
-    hc = [{"files": c.get("files") or [core.to_csv(c["rows"])], "init": gen.init_specs(c),
+    hc = [{"files": c.get("files") or split_files(c["rows"]), "init": gen.init_specs(c),
            "render": render, "costs": costs} for c in cases]
     impl_raw = run_harness(exe, "core", hc)
     enc = [core.to_ints(c, 1) for c in cases]
